@@ -170,10 +170,13 @@ let handle line =
          is ranged over), "Ir,K,brk" ranges over it -- the model runs the iterator walk at that point of the history *)
       let tbl = Hashtbl.create 8 in
       let raw = String.split_on_char ';' ops in
-      let is_ic o = String.length o > 3 && String.sub o 0 3 = "Ic," in
+      (* ops without any effect in the model: obtaining an iterator, an output into a failing writer (interference),
+         switching colours on *)
+      let is_ic o = (String.length o > 3 && (String.sub o 0 3 = "Ic," || String.sub o 0 3 = "Ob,")) || o = "K" in
       let subst o =
         match String.split_on_char ',' o with
         | "Ic" :: k :: rest -> Hashtbl.replace tbl k rest; o
+        | ["Wn"; h; _; ld; li; md; mi] -> String.concat "," ["W"; h; ld; li; md; mi; "-"]
         | ["Ir"; k; brk] -> "I," ^ String.concat "," (Hashtbl.find tbl k) ^ "," ^ brk
         | _ -> o in
       let raw = List.map subst raw in
@@ -184,7 +187,10 @@ let handle line =
         | _ :: r, x :: xs -> Some x :: weave r xs
         | _ :: _, [] -> [] in
       let outs = weave raw outs0 in
-      String.concat "|" (List.map (function None -> "c" | Some x -> (match x with
+      let marks = List.filter is_ic raw in
+      let mark_of o = if o = "K" then "k" else if String.sub o 0 3 = "Ob," then "b" else "c" in
+      let marks = ref (List.map mark_of marks) in
+      String.concat "|" (List.map (function None -> (match !marks with m :: r -> marks := r; m | [] -> "c") | Some x -> (match x with
         | OHandle h -> "h" ^ string_of_int (int_of_nat h)
         | OOutput (cs, r) -> res_str r ^ " " ^ chunks_str cs
         | OWalk (vs, r) -> res_str r ^ " " ^ (match vs with [] -> "-" | _ -> String.concat ";" (List.map visit_str vs))
